@@ -57,6 +57,15 @@ func pkgSelected(pkg string) bool {
 	return false
 }
 
+func hasPropExact(ps []string, p string) bool {
+	for _, x := range ps {
+		if x == p {
+			return true
+		}
+	}
+	return false
+}
+
 func hasProp(ps []string, p string) bool {
 	if p == "ALL" {
 		return true
@@ -295,7 +304,11 @@ func cmdCheck(args []string) int {
 			suffix = " no-failing-input-found"
 		}
 		if prop == "ALL" {
-			fmt.Printf("FAILED[%s] %s (%s, %s) at %s: %s\n", strings.Join(o.Props, ","), o.Name, o.Status, o.Solver, o.Pos, o.Text)
+			ps := o.Props
+			if sweepKinds[o.Kind] && !hasPropExact(ps, "C07") {
+				ps = append(append([]string{}, ps...), "C07")
+			}
+			fmt.Printf("FAILED[%s] %s (%s, %s) at %s: %s\n", strings.Join(ps, ","), o.Name, o.Status, o.Solver, o.Pos, o.Text)
 		} else {
 			fmt.Printf("FAILED %s (%s, %s) at %s: %s\n", o.Name, o.Status, o.Solver, o.Pos, o.Text)
 		}
